@@ -276,6 +276,12 @@ func c13Gen(t *rapid.T, methods []vfshared.Method) c13Case {
 			LeafBias: func(fd protoreflect.FieldDescriptor) bool { return c13Bias()[fd.FullName()] }})
 	}
 	req, resp := mk(m.In, false), mk(m.Out, true)
+	if rapid.IntRange(0, 2).Draw(t, "emptyBlobs") == 0 {
+		// lists of event blobs also hold an empty one (an empty page of raw history): the list keeps its shape
+		pos, typed := rapid.IntRange(0, 3).Draw(t, "emptyPos"), rapid.Bool().Draw(t, "emptyTyped")
+		vfshared.AddEmptyListBlobs(req.ProtoReflect(), pos, typed)
+		vfshared.AddEmptyListBlobs(resp.ProtoReflect(), pos, typed)
+	}
 	return c13Case{Kind: kind, Method: m.FullMethod, NSMap: ns, SAMap: sa, Req: vfMarshal(req), Resp: vfMarshal(resp),
 		ReqTxt: prototext.Format(req), RespTxt: prototext.Format(resp)}
 }
